@@ -15,7 +15,7 @@ expressions on the comment-stripped source; Untranslatable when the shape is not
 """
 import re
 
-from rs2v import Module, Untranslatable, strip_comments, read, find_fn
+from rs2v import Module, Untranslatable, strip_comments, read, find_fn, find_const
 
 SCTP = "src/transports/sctp.rs"
 DC = "src/transports/datachannel.rs"
@@ -128,6 +128,15 @@ def gen_sctp():
     # ---- InboundStream::enqueue cap test
     _, _, body = find_fn(src, "enqueue", "InboundStream")
     _need(r"if\s+self\.pending\.len\(\)\s*>=\s*MAX_INBOUND_STREAM_PENDING\s*\{", body, "InboundStream::enqueue: cap test")
+
+    # ---- advertised_rwnd: queue-length backpressure threshold, byte-based window
+    _, _, body = find_fn(src, "advertised_rwnd", "SctpInner")
+    mm = _need(r"if\s+rq_len\s*>=\s*\(MAX_RECEIVED_QUEUE_SIZE\s*\*\s*(\d+)\s*/\s*(\d+)\)\.max\((\d+)\)\s*\{\s*return\s+0\s*;", body,
+               "advertised_rwnd: queue-length threshold")
+    m.raw("Definition rwnd_zero_queue_len (max_received_queue_size : Z) : Z := Z.max (Z.quot (Z.mul max_received_queue_size %s) %s) %s." % (mm.group(1), mm.group(2), mm.group(3)),
+          "advertised_rwnd queue-length threshold", SCTP)
+    _need(r"let\s+byte_based\s*=\s*self\.local_rwnd\.saturating_sub\(used\)\s*;", body, "advertised_rwnd: byte-based window")
+    _need(r"byte_based\.try_into\(\)\.unwrap_or\(0\)", body, "advertised_rwnd: u32 conversion")
 
     # ---- DataChannelOpen::unmarshal minimum length
     _, _, body = find_fn(dsrc, "unmarshal", "DataChannelOpen")
